@@ -316,7 +316,7 @@ def long_cases(ctx, exe, S):
         elif tier == "quick":
             lens_full, lens_pm1 = [4097, 8193], [1023, 1024, 1025, 4095, 4096]
         else:
-            lens_full, lens_pm1 = [1024, 4095, 4096, 4097, 8192, 8193, 65537], [1023, 1025]
+            lens_full, lens_pm1 = [4096, 4097, 8193, 65537], [1023, 1024, 1025, 4095, 8192]
         mult = 16 if fn[:7] in ("beltBDE", "beltSDE") else 1
         for ln in lens_full + lens_pm1:
             variants = [(ln,)] if len(params) == 1 else [(ln, 16), (ln, 0), (16, ln)] if fn != "memJoin" else [(ln, 1), (ln, 16), (16, ln)]
@@ -342,7 +342,8 @@ def long_cases(ctx, exe, S):
                     contents.update({k: v for k, v in prep.items() if v is not None})
                 L = min(size[po], size[pi])
                 u = 2 if fn.startswith("beltFMT") else 1
-                offs = [1, -1] if ln in lens_pm1 else [1, -1, 15, -15, 16, -16, 17, -17, 4095, -4095, 4096, -4096, 4097, -4097, L - 1, -(L - 1), 0]
+                offs = [1, -1] if ln in lens_pm1 else [1, -1, 4096, -4097, 17] if ln > 10000 else \
+                    [1, -1, 15, -15, 16, -16, 17, -17, 4095, -4095, 4096, -4096, 4097, -4097, L - 1, -(L - 1), 0]
                 offs = [o * u for o in dict.fromkeys(offs) if abs(o) < max(size[po], size[pi])]
                 b0 = max(size.values()) + 64
                 b0 += b0 % 2
@@ -361,7 +362,7 @@ def long_cases(ctx, exe, S):
                     la = size[aux]
                     target = po if bufs[aux][0] == "in" else pi
                     lt = size[target]
-                    for off in (None, 1 * u, -8 * u):
+                    for off in ((None, 1 * u, -8 * u) if ln < 10000 else (1 * u,)):
                         a_in = b0
                         a_out = b0 + off if off is not None else b0 + size[pi] + 64 + (size[pi] % 2)
                         ta = a_out if target == po else a_in
@@ -377,7 +378,7 @@ def long_cases(ctx, exe, S):
                         continue          # the rotation by count2 single steps is quadratic in the model: kept short
                     if (fn in ("memXor", "memXor2") and ln > 4097):
                         continue
-                    c.c_only = ln > 1100          # the list-based model is quadratic in the buffer length: longer cases are oracle-only
+                    c.c_only = ln > 1100 or fn in ("memXor", "memXor2")   # (the memXor model is cubic)   # the list-based model is quadratic in the buffer length: longer cases are oracle-only
                     cases.append(c)
     return cases
 
@@ -657,7 +658,9 @@ def hl_cases(ctx, exe_hl, S, H, only=None, tolerated=None):
     for fn, spec in H.HL.items():
         if only and fn not in only:
             continue
-        for sc in spec["scal"](rng, tier):
+        longs = spec["long"](rng, tier) if spec.get("long") else []
+        for sc in list(spec["scal"](rng, tier)) + longs:
+            is_long = any(sc is x for x in longs)
             sc = dict(sc)
             prep = spec["prep"](rng, sc, call) if spec.get("prep") else None
             size = {b: spec["bufs"][b][1](sc) for b in spec["bufs"]}
@@ -667,10 +670,15 @@ def hl_cases(ctx, exe_hl, S, H, only=None, tolerated=None):
             for x, y in pairs:
                 if size[x] == 0 or size[y] == 0:
                     continue
-                for off in hl_offsets(rng, size[x], size[y], tier, k):
+                offs = hl_offsets(rng, size[x], size[y], tier, k)
+                if is_long:
+                    lo, hi = -(size[x] - 1), size[y] - 1
+                    st = [0, 1, -1, 15, -15, 16, -16, 17, -17, 4095, -4095, 4096, -4096, 4097, -4097, lo, hi, size[y] - size[x]]
+                    offs = sorted(set(o for o in st if lo <= o <= hi))
+                for off in offs:
                     c = hl_place(rng, spec, sc, [(x, y, off)], prep, fn)
                     if c:
-                        c.off, c.aux, c.hl, c.pair = off, "pair", True, (x, y)
+                        c.off, c.aux, c.hl, c.pair, c.c_only = off, "pair", True, (x, y), is_long
                         cases.append(c)
             # null optional pointers, everything apart
             for nb in sorted(spec.get("nullable", ())):
@@ -920,7 +928,8 @@ def run(ctx):
     # ---- pass 2: correspondence model vs implementation
     keep = [i for i, c in enumerate(cases) if not getattr(c, "c_only", False)]
     lines = build_lines([cases[i] for i in keep], [dops[i] for i in keep], [dres[i] for i in keep])
-    hlines = build_lines(hcases, hdops, hdres, H)
+    hkeep = [i for i, c in enumerate(hcases) if not getattr(c, "c_only", False)]
+    hlines = build_lines([hcases[i] for i in hkeep], [hdops[i] for i in hkeep], [hdres[i] for i in hkeep], H)
     mism = []
     if os.path.exists(ctx.driver()):
         try:
